@@ -34,7 +34,7 @@ LEVEL_TEXT = ("Explicit-state search of every operation history up to the depth 
               "the working tree, against a byte-map reference model in lock step; every reached state is probed byte by byte. "
               "The manager's code is size-generic, so 2-byte pages expose every straddling/adjacency/zero-size case.")
 LEVEL_NOTE = ("Trusted: the harness shim (native/vmshim.c, 40 lines calling vm_MEM_LOOKUP_*/vm_MEM_WRITE_*), gcc. 64-bit accesses and "
-              "pages larger than 2 bytes are outside the alphabet; what a failed host write or a faulting access records is "
+              "pages larger than 4 bytes are outside the alphabet; what a failed host write or a faulting access records is "
               "treated as unspecified.")
 TECHNIQUE = "explicit-state BFS over operation histories on the real C object against a byte-map reference model"
 ASSUMPTIONS = ["after every event the pending exception flags are cleared on both sides, so each event's fault report is independent"]
@@ -46,6 +46,7 @@ BP_READ, BP_WRITE = 1, 2
 LO, HI = 0x0FFF, 0x1007          # probe window [LO, HI)
 PAGE_ADDRS = [0x1000, 0x1002, 0x1001, 0x1004]
 PERMS = [R | W, R, W]
+ENCLOSING_PAGES = [(0x1001, 1), (0x1002, 1), (0x1000, 4), (0x1001, 3), (0x1000, 3)]
 
 _mods = {}
 
@@ -129,6 +130,10 @@ def events(st):
             for perm in PERMS:
                 if len(st.pages) < 3:
                     evs.append(("add", a, size, perm))
+    # 1-byte pages and 3/4-byte pages: a new page may strictly enclose an existing one (or be enclosed by it)
+    if len(st.pages) < 3:
+        for a, size in ENCLOSING_PAGES:
+            evs.append(("add", a, size, R | W))
     for p in st.pages:
         if p[1] > 0:
             evs.append(("remove", p[0]))
@@ -406,6 +411,8 @@ def seeds(quick):
         [("add", 0x1000, 2, R | W), ("add", 0x1002, 0, R | W), ("add", 0x1002, 2, R | W)],
         [("add", 0x1000, 2, R | W), ("add", 0x1002, 2, R | W), ("bpadd", 0x1001, 2, BP_WRITE)],
         [("add", 0x1000, 2, W), ("add", 0x1002, 2, R | W), ("add", 0x1004, 2, R)],
+        [("add", 0x1001, 1, R | W)],
+        [("add", 0x1000, 1, R | W), ("add", 0x1002, 1, R)],
     ]
     out = [{"big": False, "pre": l} for l in lay]
     out += [{"big": True, "pre": l} for l in (lay[1], lay[2]) + (() if quick else tuple(lay[3:]))]
@@ -417,7 +424,7 @@ def run(ctx):
     depth = 2 if ctx.quick else 3
     sd = seeds(ctx.quick)
     cov = bfs.explore(ctx, sys.modules[__name__], max_depth=depth, seeds=sd, chunk=4)
-    cov["bounds"] = {"depth": depth, "seeds": len(sd), "window": [LO, HI], "page_size": 2, "max_pages": 3, "max_breakpoints": 2}
+    cov["bounds"] = {"depth": depth, "seeds": len(sd), "window": [LO, HI], "page_sizes": [0, 1, 2, 3, 4], "max_pages": 3, "max_breakpoints": 2}
     return cov
 
 
